@@ -246,8 +246,6 @@ class Gen:
     def __init__(self, sc):
         self.sc = sc
         self.clogged = set()
-        self.obo = {}        # root connection -> user it attached for
-        self.spell = {}      # connection -> spelling used to attach
         self.rowchan = set(u for u, _, _, c in sc.rows if c)
         self.nrow = set(u for u, _, _, c in sc.rows if not c)
 
